@@ -15,6 +15,7 @@ import (
 	"github.com/AdguardTeam/dnsproxy/upstream"
 	"github.com/AdguardTeam/golibs/logutil/slogutil"
 	"github.com/AdguardTeam/golibs/netutil"
+	"github.com/miekg/dns"
 	"github.com/quic-go/quic-go"
 )
 
@@ -156,4 +157,10 @@ func (s *Server) VerifSetUpstream(u upstream.Upstream) {
 // VerifProxyAddr returns the bound address of a started server.
 func (s *Server) VerifProxyAddr(proto proxy.Proto) net.Addr {
 	return s.dnsProxy.Addr(proto)
+}
+
+// VerifNewContext creates the request context exactly as the listeners of the
+// server's current proxy do (numbered by that proxy's request counter).
+func (s *Server) VerifNewContext(proto proxy.Proto, req *dns.Msg, addr netip.AddrPort) (pctx *proxy.DNSContext) {
+	return s.proxy().VerifNewDNSContext(proto, req, addr)
 }
